@@ -1344,7 +1344,36 @@ def check_method(ctx, name, uniform):
         sl = final_field_slice(ctx, body, X, f)
         return carry_slice(ctx, rule, body, sl, 'field `%s`' % f, kw.get('need_fields', ()), kw.get('need_calls', ()), (), kw.get('not_fields', ()))
 
-    for X in sorted({X for e, X in results}):
+    # results returned only when `self.constraints.is_empty()` (a shortcut for "nothing to relax"): every per-constraint
+    # obligation is vacuous there, the rest of the input must still be carried over and the objective kept
+    empty_X = set()
+    for c in body.calls:
+        if c.item == 'is_empty' and c.args and INHERENT_SEQ_OWNER.search(c.name) and vec_of(body, c.args[0]) == (1, 'constraints'):
+            for sb, neg in T.bool_flow(body, c.dst['l']):
+                tt, ft = T.switch_sides(body, sb, neg)
+                if tt is None or ft is None: continue
+                rt = body.reach([tt]); rf = body.reach([ft])
+                for e, X in results:
+                    if e in rt and e not in rf and body.dominates(sb, e): empty_X.add(X)
+    if len(empty_X) == len({X for e, X in results}): empty_X = set()          # some result must be the general case
+    for X in sorted(empty_X):
+        for f in CARRIED + ['removed_constraints']:
+            if f != 'removed_constraints': carry('C09.carry/%s/%s' % (name, f), X, f, need_fields=[(INST, f)])
+            okw, why = carried_whole(ctx, body, loops, X, f)
+            ctx.check(okw, 'C09.carry/%s/%s/all' % (name, f), 'T-LOOPMUST', fn, 'without constraints: %s is not carried over as a whole: %s' % (f, why), body.site())
+        carry('C09.carry/%s/objective' % name, X, 'objective', need_fields=[(INST, 'objective')])
+        xc = construction_of(ctx, body, X, 'v1::ParametricInstance')
+        oop = xc.operand('objective') if xc is not None else None
+        orr = root_of(body, oop)[0] if oop is not None else None
+        odefs = _whole_defs(body, orr) if orr is not None and not (1 <= orr <= body.argc) else []
+        ctx.check(bool(odefs) and all(d_[0] == 'stmt' and d_[2]['rv']['k'] == 'agg' and d_[2]['rv']['adt'].endswith('Option::Some') for d_ in odefs),
+                  'C09.objective/%s/always-some' % name, 'T-CARRY', fn, 'without constraints: the objective of the result is not `Some(..)`', body.site())
+        pv = field_vec(body, X, 'parameters')
+        exits_X = [e for e, X2 in results if X2 == X]
+        reaching = [c_ for c_ in (pushes_into(body, pv) if pv is not None else []) if any(e in body.reach([c_.target]) for e in exits_X)]
+        ctx.check(pv is not None and created_empty(body, pv) and not reaching, 'C09.parameters/%s/none-without-constraints' % name, 'T-CARRY', fn,
+                  'without constraints the result should have no weight parameter', body.site())
+    for X in sorted({X for e, X in results} - empty_X):
         for f in CARRIED:
             carry('C09.carry/%s/%s' % (name, f), X, f, need_fields=[(INST, f)])
         # .. and the list of variables is carried over *completely* (not only those that are still used somewhere)
